@@ -255,3 +255,356 @@ Example ex_reader_fault :
   let r := run_tool p (single 9) in
   code_of r = 1 /\ has_diag (trace_of r) = true.
 Proof. vm_compute. repeat split; reflexivity. Qed.
+
+(* ==================================================================================================
+   Containers under allocation failure (session 3, coq/UtilAlloc).
+
+   The allocation clause of C13, bottom-up: lib/util/src/{array,hash_table,rbtree,str_table}.c
+   with EVERY malloc / calloc / realloc / alloc_flex site consulting an oracle (a list of
+   booleans consumed one per allocation call, any list) and taking the C code's own failure
+   path.  [owned_by h own F]: the live allocation ids of heap h are exactly [own] (the object's)
+   plus the frame F; an operation that maps owned_by to owned_by for every frame and leaves
+   [h_bad] alone leaks nothing and frees nothing twice.  The models reuse the functions of the
+   Util models (coq/Util), so with an oracle that never fails they ARE the Util models
+   (the alloc_model_conservative theorems).
+   ================================================================================================== *)
+From Coq Require Import NArith Permutation.
+From SqfsV Require Import Util.GenUtil Util.FastRem Util.HashModel Util.HashBase Util.HashRows Util.HashInv
+     Util.ArrayModel Util.ArrayProofs Util.RbModel Util.RbOrder Util.RbTheorems Util.StrModel Util.StrProofs
+     UtilAlloc.AllocBase UtilAlloc.ArrayAlloc UtilAlloc.HashAlloc UtilAlloc.HashAllocInv UtilAlloc.HashAllocProofs
+     UtilAlloc.RbAlloc UtilAlloc.RbAllocProofs UtilAlloc.StrAlloc UtilAlloc.StrAllocInv UtilAlloc.StrAllocProofs
+     UtilAlloc.StrAllocCopy UtilAlloc.UtilAllocTop.
+Local Open Scope N_scope.
+
+(* ---- array.c ---- *)
+(* array_append: 0 and the element appended, or SQFS_ERROR_ALLOC and the very same array; the
+   data block is owned before and after, nothing else is touched *)
+Theorem array_alloc_failstop : forall (E : Type) (a : aarr E) (x : E) h F z a' h',
+  aarr_inv E a -> owned_by h (aa_owns E a) F -> array_append_a E a x h = (z, a', h') ->
+  owned_by h' (aa_owns E a') F /\ h_bad h' = h_bad h /\
+  ((z = 0%Z /\ aarr_inv E a' /\ aa_abs E a' = aa_abs E a ++ [x] /\
+    a_used (aa_core a') = a_used (aa_core a) + 1 /\ a_size (aa_core a') = a_size (aa_core a)) \/
+   (z = c_SQFS_ERROR_ALLOC /\ a' = a)).
+Proof. exact array_append_a_spec. Qed.
+Print Assumptions array_alloc_failstop.
+
+(* a full array whose realloc fails does report the failure *)
+Theorem array_alloc_fault_reported : forall (E : Type) (a : aarr E) (x : E) h o,
+  a_used (aa_core a) = a_count (aa_core a) -> h_orc h = false :: o ->
+  fst (fst (array_append_a E a x h)) = c_SQFS_ERROR_ALLOC /\ snd (fst (array_append_a E a x h)) = a.
+Proof. exact array_append_a_alloc_fails. Qed.
+
+Theorem array_set_capacity_alloc_failstop : forall (E : Type) (a : aarr E) cap h F,
+  aarr_inv E a -> cap <= util_size_max -> owned_by h (aa_owns E a) F ->
+  exists z a' h', array_set_capacity_a E a cap h = Ok (z, a', h') /\
+    owned_by h' (aa_owns E a') F /\ h_bad h' = h_bad h /\
+    ((z = 0%Z /\ aarr_inv E a' /\ aa_abs E a' = aa_abs E a /\ a_used (aa_core a') = a_used (aa_core a) /\
+      a_size (aa_core a') = a_size (aa_core a) /\ cap <= a_count (aa_core a')) \/
+     (z = c_SQFS_ERROR_ALLOC /\ a' = a)).
+Proof. exact array_set_capacity_a_spec. Qed.
+
+Theorem array_init_copy_alloc_failstop : forall (E : Type) (src : aarr E) h F z a h',
+  aarr_inv E src -> owned_by h [] F -> array_init_copy_a E src h = (z, a, h') ->
+  owned_by h' (aa_owns E a) F /\ h_bad h' = h_bad h /\
+  ((z = 0%Z /\ aarr_inv E a /\ aa_abs E a = aa_abs E src /\ a_used (aa_core a) = a_used (aa_core src) /\
+    a_size (aa_core a) = a_size (aa_core src)) \/
+   (z <> 0%Z /\ a = aa_zero E /\ (z = c_SQFS_ERROR_OVERFLOW \/ z = c_SQFS_ERROR_ALLOC))).
+Proof. exact array_init_copy_a_spec. Qed.
+Print Assumptions array_init_copy_alloc_failstop.
+
+Theorem alloc_model_conservative_array : forall (E : Type) (a : aarr E) (x : E) h,
+  all_ok h ->
+  let '(z, a', _) := array_append_a E a x h in array_append E (aa_core a) x = (z, aa_core a').
+Proof. exact array_append_a_conservative. Qed.
+
+Example ex_array_alloc_failstop :
+  let '(z, a, h) := array_init_a (list N) 2 0 (heap0 (fail_at 0)) in
+  let '(z1, a1, h1) := array_append_a (list N) a [1; 2] h in
+  let '(z2, a2, h2) := array_append_a (list N) a1 [3; 4] h1 in
+  z = 0%Z /\ z1 = c_SQFS_ERROR_ALLOC /\ a1 = a /\ h_live h1 = [] /\
+  z2 = 0%Z /\ aa_abs _ a2 = [[3; 4]] /\ h_live h2 = [0] /\ h_bad h2 = false.
+Proof. vm_compute. repeat split. Qed.
+
+(* ---- hash_table.c ---- *)
+(* hash_table_insert under ANY oracle: the invariant wfa (Util's wf without the load bound, which a
+   failed rehash breaks) is kept; NULL is returned only after the calloc of this very call failed on
+   a completely full table and then the state is the very same; every other outcome -- also with a
+   failed rehash -- is the insert of the Util contract; the two blocks are owned before and after;
+   exact counters stay exact; no allocation failure => never NULL *)
+Theorem hash_table_alloc_failstop : forall (K V : Type) (keq : K -> K -> bool) (t : ahtab K V) hash key data h F,
+  wfa K V (ah_core t) -> hash < two32 -> ht_entries K V (ah_core t) < ht_safe_limit ->
+  owned_by h (ah_owns K V t) F ->
+  exists t' r h', ht_insert_a K V keq t hash key data h = Ok (t', r, h') /\
+    wfa K V (ah_core t') /\ owned_by h' (ah_owns K V t') F /\ h_bad h' = h_bad h /\
+    (wfs K V (ah_core t) -> wfs K V (ah_core t')) /\
+    (r = None -> t' = t /\ exists o, h_orc h = false :: o) /\
+    (all_ok h -> r <> None).
+Proof. exact hash_table_alloc_failstop_thm. Qed.
+Print Assumptions hash_table_alloc_failstop.
+
+Theorem hash_table_insert_contract_any_oracle :
+  forall (K V : Type) (keq : K -> K -> bool) (t : ahtab K V) hash key data h F,
+  wfa K V (ah_core t) -> hash < two32 -> ht_entries K V (ah_core t) < ht_safe_limit ->
+  owned_by h (ah_owns K V t) F ->
+  exists t' r h', ht_insert_a K V keq t hash key data h = Ok (t', r, h') /\
+    wfa K V (ah_core t') /\ owned_by h' (ah_owns K V t') F /\ h_bad h' = h_bad h /\ ah_sid t' = ah_sid t /\
+    match r with
+    | None => t' = t /\ alloc h = (None, h') /\ table_full K V (ah_core t) /\ no_match K V keq (ah_core t) hash key
+    | Some a =>
+      nthN (ht_table K V (ah_core t')) a = Some (SPresent hash key data) /\
+      (ins_replaced K V keq t t' hash key data \/ ins_added K V keq t t' a hash key data) /\
+      (count_del K V (ht_table K V (ah_core t)) = 0 -> count_del K V (ht_table K V (ah_core t')) = 0)
+    end.
+Proof. exact ht_insert_a_spec. Qed.
+
+(* search never looked at the counters: Util's contract under wfa *)
+Theorem hash_table_search_contract_any_oracle : forall (K V : Type) (keq : K -> K -> bool) (t : htab K V) hash key,
+  wfa K V t -> hash < two32 ->
+  exists r, ht_search K V keq t hash key = Ok r /\
+    match r with
+    | Some a => exists k d, nthN (ht_table K V t) a = Some (SPresent hash k d) /\ keq key k = true
+    | None => forall p k d, nthN (ht_table K V t) p = Some (SPresent hash k d) -> keq key k = false
+    end.
+Proof. exact ht_search_wfa. Qed.
+
+Theorem hash_table_create_alloc_failstop : forall (K V : Type) h F,
+  owned_by h [] F ->
+  let '(r, h') := ht_create_a K V h in
+  h_bad h' = h_bad h /\
+  match r with
+  | Some t => owned_by h' (ah_owns K V t) F /\ wfs K V (ah_core t) /\ ah_live K V t = [] /\
+              ht_create K V = Some (ah_core t) /\ h_calls h' = h_calls h + 2
+  | None => owned_by h' [] F /\ exists k, (k < 2)%nat /\ nth_error (h_orc h) k = Some false
+  end.
+Proof. exact ht_create_a_spec. Qed.
+
+Theorem hash_table_destroy_frees_all : forall (K V : Type) (t : ahtab K V) h F,
+  owned_by h (ah_owns K V t) F ->
+  owned_by (ht_destroy_a K V t h) [] F /\ h_bad (ht_destroy_a K V t h) = h_bad h.
+Proof. exact ht_destroy_a_spec. Qed.
+
+Theorem alloc_model_conservative_hash : forall (K V : Type) (keq : K -> K -> bool) (t : ahtab K V) hash key data h F,
+  wfa K V (ah_core t) -> hash < two32 -> ht_entries K V (ah_core t) < ht_safe_limit ->
+  owned_by h (ah_owns K V t) F -> all_ok h ->
+  exists t' r h', ht_insert_a K V keq t hash key data h = Ok (t', r, h') /\
+    ht_insert K V keq (ah_core t) hash key data = Ok (ah_core t', r) /\ all_ok h'.
+Proof. exact ht_insert_a_conservative. Qed.
+Print Assumptions alloc_model_conservative_hash.
+
+Example ex_hash_table_full_null :
+  exists t ans h,
+    ht_fill [true; true; false; false; false; false] 6 = Some (t, ans, h) /\
+    ans = [Some 1; Some 2; Some 3; Some 4; Some 0; None] /\
+    ht_entries _ _ (ah_core t) = 5 /\ ht_size_index _ _ (ah_core t) = 0%nat /\ h_live h = [1; 0] /\ h_bad h = false.
+Proof. exact hash_table_full_null_example. Qed.
+
+(* ---- rbtree.c (calloc variant) ---- *)
+Theorem rbtree_alloc_failstop : forall (cmp : list N -> list N -> Z),
+  (forall a b, (cmp a b < 0 <-> 0 < cmp b a)%Z) ->
+  (forall a b c, (cmp a b <= 0 -> cmp b c <= 0 -> cmp a c <= 0)%Z) ->
+  forall t key value h own F,
+  rbtree_inv cmp t -> RbModel.lenN key = rb_key_size t -> RbModel.lenN value = rb_value_size t ->
+  owned_by h (tids (rb_root t) ++ own) F ->
+  exists z t' h', rbtree_insert_a cmp t key value h = Some (z, t', h') /\ h_bad h' = h_bad h /\
+    owned_by h' (tids (rb_root t') ++ own) F /\ rbtree_inv cmp t' /\
+    (all_ok h -> z = 0%Z /\ all_ok h') /\
+    ((z = 0%Z /\ rbtree_insert cmp t (h_next h) key value = Some (t', h_next h') /\
+      elements (rb_root t') =
+        ins_sorted cmp (rb_key_size t) (new_elem t (h_next h) key value) (elements (rb_root t))) \/
+     (z = c_SQFS_ERROR_ALLOC /\ t' = t /\ exists o, h_orc h = false :: o)).
+Proof. exact rbtree_insert_a_spec. Qed.
+Print Assumptions rbtree_alloc_failstop.
+
+(* rbtree_copy: on success it IS the Util model's copy (started at the heap's next id) and owns its
+   nodes; on failure SQFS_ERROR_ALLOC, *out zeroed, every node allocated on the way freed once *)
+Theorem rbtree_copy_alloc_failstop : forall t h own F,
+  layout_ok t -> owned_by h own F ->
+  exists z t' h', rbtree_copy_a t h = Some (z, t', h') /\ h_bad h' = h_bad h /\
+    (all_ok h -> z = 0%Z /\ all_ok h') /\
+    ((z = 0%Z /\ rbtree_copy t (h_next h) = Some (t', h_next h') /\
+      owned_by h' (tids (rb_root t') ++ own) F) \/
+     (z = c_SQFS_ERROR_ALLOC /\ t' = rb_zero /\ owned_by h' own F)).
+Proof. exact rbtree_copy_a_spec. Qed.
+Print Assumptions rbtree_copy_alloc_failstop.
+
+Theorem rbtree_cleanup_frees_all : forall t h own F,
+  owned_by h (tids (rb_root t) ++ own) F ->
+  owned_by (snd (rbtree_cleanup_a t h)) own F /\ h_bad (snd (rbtree_cleanup_a t h)) = h_bad h /\
+  fst (rbtree_cleanup_a t h) = rb_zero.
+Proof. exact rbtree_cleanup_a_spec. Qed.
+
+Example ex_rbtree_copy_unwind :
+  exists t h z t' h',
+    rb3 = Some (t, h) /\ rbtree_copy_a t h = Some (z, t', h') /\
+    z = c_SQFS_ERROR_ALLOC /\ t' = rb_zero /\ h_live h' = h_live h /\ h_bad h' = false /\ h_calls h' = 6 /\
+    h_next h' = 5.
+Proof. exact rbtree_copy_unwind_example. Qed.
+
+(* ---- str_table.c ---- *)
+(* every sequence of get_index / get_string calls, every oracle, the code as it is (fx = false) and
+   repaired (fx = true): no crash, the weak invariant and the ownership are kept, nothing is freed
+   twice, and the answers are those of the abstract machine in which a failed call is a no-op
+   (no lost string, no phantom string, no changed index); with the repair the exact counters
+   (Util's invariant) are kept as well *)
+Theorem str_table_alloc_failstop : forall fx ops b t h F,
+  astr_inv b t -> owned_by h (as_owns t) F ->
+  ht_entries skey N (st_ht (as_core t)) + N.of_nat (length ops) < ht_safe_limit ->
+  exists b' t' h' ans,
+    st_run fx (b, t, h) ops = SOk ((b', t', h'), ans) /\
+    astr_inv b' t' /\ owned_by h' (as_owns t') F /\ h_bad h' = h_bad h /\
+    abs_run (str_abs b (as_core t)) ops ans (str_abs b' (as_core t')) /\
+    (fx = true -> stra_strict (as_core t) -> stra_strict (as_core t')).
+Proof. exact str_table_run_failstop. Qed.
+Print Assumptions str_table_alloc_failstop.
+
+(* one call with a new string, all three allocation sites *)
+Theorem str_table_get_index_alloc_failstop : forall fx b t s h F,
+  astr_inv b t -> ~ In s (strings b (as_core t)) ->
+  ht_entries skey N (st_ht (as_core t)) < ht_safe_limit ->
+  owned_by h (as_owns t) F ->
+  exists b' t' z idx h',
+    str_table_get_index_a fx b t s h = SOk (b', t', z, idx, h') /\
+    astr_inv b' t' /\ owned_by h' (as_owns t') F /\ h_bad h' = h_bad h /\
+    (forall id, id <> h_next h -> bh_get b' id = bh_get b id) /\
+    ((z = 0%Z /\ gi_ok b t s b' t' idx) \/ (z = c_SQFS_ERROR_ALLOC /\ idx = 0 /\ gi_failed fx b t b' t')).
+Proof. exact get_index_a_new. Qed.
+
+Theorem str_table_init_alloc_failstop : forall h F,
+  owned_by h [] F ->
+  let '(z, r, h') := str_table_init_a h in
+  h_bad h' = h_bad h /\
+  match r with
+  | Some t => z = 0%Z /\ owned_by h' (as_owns t) F /\ st_next_index (as_core t) = 0 /\
+              (forall b, astr_inv b t /\ stra_strict (as_core t) /\ str_abs b (as_core t) = [])
+  | None => z = c_SQFS_ERROR_ALLOC /\ owned_by h' [] F /\ exists k, (k < 2)%nat /\ nth_error (h_orc h) k = Some false
+  end.
+Proof. exact str_table_init_a_spec. Qed.
+
+Theorem str_table_cleanup_frees_all : forall b t h F,
+  astr_inv b t -> owned_by h (as_owns t) F ->
+  let '(b', h') := str_table_cleanup_a b t h in
+  owned_by h' [] F /\ h_bad h' = h_bad h /\
+  (forall id, ~ In id (a_data (st_arr (as_core t))) -> bh_get b' id = bh_get b id).
+Proof. exact str_table_cleanup_a_spec. Qed.
+Print Assumptions str_table_cleanup_frees_all.
+
+(* the code as it is: a failed get_index leaves ht->entries one too high (Util's invariant broken),
+   and a table holding one string gets re-hashed into the next row; repaired: it does not *)
+Theorem str_table_entries_drift_refuted_thm :
+  exists st ans, run_from false (fail_at 3) [OGet [97]] = Some (st, ans) /\
+    ans = [AGet c_SQFS_ERROR_ALLOC 0] /\ present_of st = 0 /\ entries_of st = 1 /\
+    ~ stra_strict (as_core (snd (fst st))).
+Proof. exact str_table_entries_drift_refuted. Qed.
+
+Theorem str_table_drift_grows_refuted_thm :
+  let o := [true; true; true; false; true; false] in
+  let ops := [OGet [97]; OGet [98]; OGet [99]] in
+  (exists st ans, run_from false o ops = Some (st, ans) /\ present_of st = 1 /\ entries_of st = 3 /\
+                  row_of st = 1%nat /\ h_calls (snd st) = 9) /\
+  (exists st ans, run_from true o ops = Some (st, ans) /\ present_of st = 1 /\ entries_of st = 1 /\
+                  row_of st = 0%nat /\ h_calls (snd st) = 8).
+Proof. exact str_table_drift_grows_refuted. Qed.
+
+(* str_table_copy as it is frees buckets of the SOURCE when its bucket loop cannot allocate *)
+Theorem str_table_copy_frees_source_refuted_thm :
+  exists b' h' src,
+    copy_after false 11 = Some (b', None, c_SQFS_ERROR_ALLOC, h', src) /\
+    h_bad h' = false /\
+    (exists bid, In bid (a_data (st_arr (as_core src))) /\ ~ In bid (h_live h')) /\
+    str_table_get_string_a b' src 0 = SCrash /\
+    h_bad (snd (str_table_cleanup_a b' src h')) = true.
+Proof. exact str_table_copy_frees_source_refuted. Qed.
+
+(* str_table_copy repaired (props/C13/fixes/C13N14): fail-stop for every oracle *)
+Theorem str_table_copy_alloc_failstop : forall b dst src h F,
+  astr_inv b src -> owned_by h (as_owns src) F ->
+  exists b' r z h',
+    str_table_copy_a true b dst src h = SOk (b', r, z, h') /\ h_bad h' = h_bad h /\
+    (forall id, In id (h_live h) -> bh_get b' id = bh_get b id) /\
+    ((z = 0%Z /\ exists t' new, r = Some t' /\ owned_by h' (new ++ as_owns src) F) \/
+     (z <> 0%Z /\ r = None /\ owned_by h' (as_owns src) F)).
+Proof. exact str_table_copy_a_failstop. Qed.
+Print Assumptions str_table_copy_alloc_failstop.
+
+Theorem str_table_copy_source_intact : forall b dst src h F b' r z h',
+  astr_inv b src -> owned_by h (as_owns src) F ->
+  str_table_copy_a true b dst src h = SOk (b', r, z, h') -> z <> 0%Z ->
+  astr_inv b' src /\ str_abs b' (as_core src) = str_abs b (as_core src) /\ owned_by h' (as_owns src) F /\
+  h_bad h' = h_bad h.
+Proof. exact str_table_copy_a_source_intact. Qed.
+
+Example ex_str_table_copy_fixed :
+  exists b' h' src,
+    copy_after true 11 = Some (b', None, c_SQFS_ERROR_ALLOC, h', src) /\
+    h_bad h' = false /\
+    str_table_get_string_a b' src 0 = SOk (Some [97; 97]) /\
+    h_bad (snd (str_table_cleanup_a b' src h')) = false /\ h_live (snd (str_table_cleanup_a b' src h')) = [].
+Proof. exact str_table_copy_fixed_example. Qed.
+
+(* the hypotheses of str_table_alloc_failstop hold for every table str_table_init returns *)
+Example ex_str_table_start :
+  forall o, match st_start o with
+            | Some (b, t, h) => astr_inv b t /\ owned_by h (as_owns t) (fun _ => False) /\
+                                stra_strict (as_core t) /\ str_abs b (as_core t) = []
+            | None => True
+            end.
+Proof. exact str_table_run_example. Qed.
+
+(* ---- one level up: the xattr writer's recording path over the containers ---- *)
+From SqfsV Require Import UtilAlloc.XattrAlloc UtilAlloc.XattrAllocProofs.
+
+(* sqfs_xattr_writer_add_kv under ANY oracle: no crash; the invariants of both string tables and of
+   the pair array and the ownership of every block are kept (the temporary value string is freed on
+   every path); a failing call returns SQFS_ERROR_ALLOC and has recorded or altered NO pair; what
+   it may leave behind are strings appended to the key / value table (old strings keep their
+   indices) and reference counts; a successful call has the pair in the array and both strings in
+   their tables *)
+Theorem xattr_writer_add_kv_alloc_failstop : forall fx b w key value h F,
+  axw_inv b w -> owned_by h (xw_owns w) F ->
+  ht_entries skey N (st_ht (as_core (xw_keys w))) < ht_safe_limit ->
+  ht_entries skey N (st_ht (as_core (xw_values w))) < ht_safe_limit ->
+  exists b' w' z h',
+    xw_add_kv_a fx b w key value h = SOk (b', w', z, h') /\
+    axw_inv b' w' /\ owned_by h' (xw_owns w') F /\ h_bad h' = h_bad h /\
+    xw_residue b w b' w' /\
+    (z <> 0%Z -> z = c_SQFS_ERROR_ALLOC /\ xw_pairs w' = xw_pairs w) /\
+    (z = 0%Z -> exists ki vi,
+        nth_error (strings b' (as_core (xw_keys w'))) (N.to_nat ki) = Some key /\
+        nth_error (strings b' (as_core (xw_values w'))) (N.to_nat vi) = Some (to_base32 value) /\
+        In (mk_pair ki vi) (aa_abs N (xw_pairs w'))).
+Proof. exact xattr_add_kv_alloc_failstop. Qed.
+Print Assumptions xattr_writer_add_kv_alloc_failstop.
+
+(* the error path of the tools (sqfs_drop of the writer) is safe in every such state *)
+Theorem xattr_writer_destroy_frees_all : forall b w h F,
+  axw_inv b w -> owned_by h (xw_owns w) F ->
+  owned_by (snd (xw_destroy_a b w h)) [] F /\ h_bad (snd (xw_destroy_a b w h)) = h_bad h.
+Proof. exact xattr_destroy_frees_all. Qed.
+
+Theorem xattr_writer_create_alloc_failstop : forall h F,
+  owned_by h [] F ->
+  let '(r, h') := xw_create_a h in
+  h_bad h' = h_bad h /\
+  match r with
+  | Some w => owned_by h' (xw_owns w) F /\ (forall b, axw_inv b w)
+  | None => owned_by h' [] F
+  end.
+Proof. exact xattr_create_alloc_failstop. Qed.
+Print Assumptions xattr_writer_create_alloc_failstop.
+
+(* create; one add whose last allocation (the value's index array) fails; the key "user.a" stays in
+   the key table without a pair; destroy releases everything *)
+Example ex_xattr_writer_residue :
+  match xw_create_a (heap0 (fail_at 8)) with
+  | (Some w, h) =>
+    match xw_add_kv_a true (mk_bheap 0 []) (xw_begin_a w) [117; 115; 101; 114; 46; 97] [1; 2] h with
+    | SOk (b', w', z, h') =>
+      z = c_SQFS_ERROR_ALLOC /\ aa_abs N (xw_pairs w') = [] /\
+      strings b' (as_core (xw_keys w')) = [[117; 115; 101; 114; 46; 97]] /\
+      strings b' (as_core (xw_values w')) = [] /\
+      h_live (snd (xw_destroy_a b' w' h')) = [] /\ h_bad (snd (xw_destroy_a b' w' h')) = false
+    | _ => False
+    end
+  | _ => False
+  end.
+Proof. vm_compute. repeat split. Qed.
